@@ -24,12 +24,12 @@ def natDigitsW (n : Nat) : List Char :=
 termination_by n
 decreasing_by omega
 
-theorem natDigitsAux_eq_W : ∀ (k n : Nat), n ≤ k → natDigitsAux k n = natDigitsW n := by
+theorem natDigitsAux_eq_W : ∀ (k n : Nat), n < 2 ^ k → natDigitsAux k n = natDigitsW n := by
   intro k
   induction k with
   | zero =>
     intro n hn
-    have : n = 0 := by omega
+    have : n = 0 := by simpa using hn
     subst this
     rw [natDigitsW]
     rfl
@@ -40,12 +40,16 @@ theorem natDigitsAux_eq_W : ∀ (k n : Nat), n ≤ k → natDigitsAux k n = natD
     by_cases h : n < 10
     · simp [h]
     · simp only [h, ↓reduceIte]
-      rw [ih (n / 10) (by omega)]
+      have hp : 2 ^ (k + 1) = 2 ^ k * 2 := Nat.pow_succ 2 k
+      have : n / 10 < 2 ^ k := Nat.div_lt_of_lt_mul (by omega)
+      rw [ih (n / 10) this]
+
+theorem natDigits_eq_W (n : Nat) : natDigits n = natDigitsW n :=
+  natDigitsAux_eq_W _ n Nat.lt_log2_self
 
 theorem natDigits_eq (n : Nat) :
     natDigits n = if n < 10 then [digitChar n] else natDigits (n / 10) ++ [digitChar (n % 10)] := by
-  unfold natDigits
-  rw [natDigitsAux_eq_W n n (Nat.le_refl _), natDigitsAux_eq_W (n / 10) (n / 10) (Nat.le_refl _)]
+  rw [natDigits_eq_W, natDigits_eq_W]
   exact natDigitsW.eq_1 n
 
 theorem natOfDigits_natDigits (n : Nat) : natOfDigits (natDigits n) = n := by
